@@ -189,7 +189,7 @@ prop("C03", ["det_loop_state_resolver", "tt_compatible", "prov_matcher_shape", "
      "'exactly that many' bonds depends on first-match search order over runtime lists",
      floors={"DET.loop-state": 4, "PROV.option-forwarding": 8, "ORD.complete-loops": 19, "SENT.order-zero": 20, "TT.compatible": 1, "PROV.matcher-shape": 4, "OWN.sole-bond-site": 1, "PROV.matcher-args": 1,
              "PROV.legacy-forwarded": 2, "TRIP.bond-loop": 3, "PAIR.resolver-consume": 3, "PROV.bond-edge": 2, "PROV.bond-order": 1})
-prop("C04", ["det_loop_state_reader", "det_shared_state_reader", "ring_marker_text", "exc_raise_inventory", "tab_reader_symbols", "da_reader", "da_globals_reader", "sib_ring_handlers", "prov_node_attributes", "sent_order_zero", "prov_after_branch_order", "tab_node_token"],
+prop("C04", ["det_loop_state_reader", "det_shared_state_reader", "ring_marker_text", "exc_raise_inventory", "tab_reader_symbols", "da_reader", "da_globals_reader", "sib_ring_handlers", "prov_node_attributes", "sent_order_zero", "prov_after_branch_order", "tab_node_token", "tab_dialects"],
      "a sliver: the reader's symbol table equals the documented one and its guard admits every symbol; no possibly-unbound local on a feasible path of the "
      "reader functions; the %nn and digit ring handlers perform the same open/close protocol; a ring bond joins opening and closing node with the order "
      "written at the opening marker and the pending ring order is reset after every marker; node attributes come from the node's own text",
@@ -218,7 +218,7 @@ prop("C08", ["ring_marker_text", "tt_layer_format", "da_writer", "emit_format_bo
      "equality of the re-read fragment graphs (pysmiles writes and parses the atoms); coarse fragments are written with the fragment's name in place of "
      "each node's own name (seen while reading, outside the rules)",
      floors={"TOK.ring-marker-text": 1, "TT.layer-format": 1, "DA.writer": 6, "EMIT.write_graph": 2, "EMIT.format_bonding": 4, "TAB.fragment-symbols": 2, "SENT.pending-order": 1, "TOK.T5-descriptor": 6})
-prop("C09", ["ord_resolve_phases", "ord_sample_finalise", "ord_hydrogens", "tab_copy_attrs", "prov_h_inherit", "sent_numeric_attrs", "ord_complete_loops", "own_templates_sampler", "prov_hcount_bookkeeping", "prov_kept_hydrogens"],
+prop("C09", ["ord_resolve_phases", "ord_sample_finalise", "ord_hydrogens", "tab_copy_attrs", "prov_h_inherit", "sent_numeric_attrs", "ord_complete_loops", "own_templates_sampler", "prov_hcount_bookkeeping", "prov_kept_hydrogens", "own_mutable_defaults"],
      "every all-atom path of resolver and sampler passes the hydrogen rebuild after the last connectivity change and before renumbering; inside the rebuild: "
      "reset hcount to 0 < fill_valence(respect_hcount=False) < add_explicit_hydrogens, aromatic correction < fill; keep_bonding unused; hydrogens inherit attributes",
      "the numbers themselves (valence lists, charges, aromatic correction) are pysmiles'",
@@ -228,7 +228,7 @@ prop("C10", ["ord_hydrogens", "prov_squash", "ord_resolve_phases", "prov_bond_ed
      "recorded; self_loops=False; result assigned back; kept node's fragid/mapping extended on every path; connect < squash < hydrogens; the pair is recorded on the bond",
      "equivalence with the disjoint description; aromaticity and hydrogen refill on the merged graph",
      floors={"PROV.squash-one-atom": 1, "TT.compatible": 1, "PROV.squash-protocol": 6, "PAIR.squash-membership": 1, "ORD.resolve-phases": 10})
-prop("C11", ["trip_bond_loop", "exc_missing_fragment", "key_fragid", "sent_order_zero", "prov_annotate_lookup"],
+prop("C11", ["trip_bond_loop", "exc_missing_fragment", "key_fragid", "sent_order_zero", "prov_annotate_lookup", "ord_complete_loops"],
      "range(0, order) bounds bonds per edge (none for order 0); a fragment-less node is skipped only if all incident orders are 0, else SyntaxError, and "
      "creates no fine nodes; skipping a node does not shift the membership of the others",
      "that the fine molecule is unchanged follows from these plus C03 only for the clauses decided there",
@@ -252,7 +252,7 @@ prop("C14", ["det_shared_state_reader", "tab_dialects", "ord_parse_pipeline", "p
      "bound arguments; base-graph node attributes come from the node's own text (also for multiplied copies and recipes); fragment copies keep all attributes",
      "numeric spellings (python's float); `q=` at the coarse-fragment level is parsed by the atomistic dialect (seen while reading, outside the rules)",
      floors={"DET.shared-state": 8, "SENT.annotation-value": 2, "PROV.fragment-attrs": 2, "SENT.numeric-attribute": 30, "SENT.attribute-value": 1, "TAB.dialects": 3, "ORD.parse-pipeline": 6, "PROV.node-attributes": 4, "PROV.copy-complete": 5})
-prop("C15", ["prov_fragment_attrs", "tt_relative_dispatch", "prov_slash_marks", "ord_resolve_stereo", "prov_relative_attr", "tok_rules", "prov_copy_complete", "prov_kept_hydrogens"],
+prop("C15", ["prov_fragment_attrs", "tt_relative_dispatch", "prov_slash_marks", "ord_resolve_stereo", "prov_relative_attr", "tok_rules", "prov_copy_complete", "prov_kept_hydrogens", "prov_sort_key"],
      "the cis/trans annotation runs after the last relabelling and after hydrogens exist, on the relabelled graph; node-referencing attributes are "
      "remapped through the relabelling map and shifted on merge; slash marks are recorded for the atoms around them; chirality annotations are copied",
      "the cis/trans relation itself (pysmiles' _annotate_ez_isomers)",
